@@ -470,12 +470,17 @@ def _run_real(case, maximise):
                 alg.options["verbose_level"] = 0
                 alg.run()
             else:
+                import nlopt
                 import artap.algorithm_nlopt as anl
                 alg = anl.NLopt(prob)
                 alg.options["algorithm"] = getattr(anl, case["opt"])
                 alg.options["n_iterations"] = case["iters"]
                 alg.options["verbose_level"] = 0
-                alg.run()
+                try:
+                    alg.run()
+                except (nlopt.RoundoffLimited, nlopt.ForcedStop):
+                    pass    # the optimiser library gave up (BOBYQA on a 1-D quadratic); what was queried so far
+                            # must still have been recorded faithfully, which is all the property claims
         rec = [([float(v) for v in i.vector], [float(c) for c in i.costs]) for i in prob.individuals]
     finally:
         dispose(prob)
